@@ -248,6 +248,14 @@ func init() {
 			}
 			js = append(js, &Job{Pkg: pkgScheduler, Func: "VerifSchedWhole", Args: []int64{3, e, pb}, Timeout: 30 * time.Minute, MaxSteps: 2000000000})
 		}
+		if tier == "thorough" {
+			// six representative 4-stage graphs (chain, diamond, fork, join, reversed chain, two pairs), every in-flight set
+			for _, e := range []int64{273, 291, 7, 292, 2184, 257} {
+				for am := int64(0); am < 16; am++ {
+					js = append(js, &Job{Pkg: pkgScheduler, Func: "VerifSchedPass", Args: []int64{4, e, am}, Timeout: 120 * time.Minute, MaxSteps: 4000000000})
+				}
+			}
+		}
 		for e := int64(0); e < 4; e++ {
 			for am := int64(0); am < 4; am++ {
 				js = append(js, &Job{Pkg: pkgScheduler, Func: "VerifSchedPass", Args: []int64{2, e, am}, Timeout: 10 * time.Minute})
@@ -274,7 +282,7 @@ func init() {
 	}
 	schedBounds := map[string]interface{}{
 		"quick":    "every directed graph on 3 stages (64 edge sets over ordered pairs; the 25 acyclic ones are analysed, declaration order = visiting order so all orders are covered) and on 2 stages; per stage symbolic allow_failure, outcome, condition absent/true/false. (a) interference mode: ONE pass / the exit path of the real Schedule from an ARBITRARY state satisfying the invariant, worker interference (rely relation) at every atomic operation - covers runs of any length and every fine-grained interleaving; (b) the real worker closure for a task stage and a nested-pipeline stage against the rely relation; (c) thread mode: whole Schedule runs from the initial state, interleavings enumerated with preemption bound 1; (d) thread mode: an outer pipeline a->b, p(a) whose stage p is a nested pipeline over every 3-stage graph REUSING the names a, b, c, symbolic outcomes; (e) thread mode: cancelled runs on 5 graphs - a stage condition that cannot be evaluated (each stage), and Scheduler.Cancel from another thread at every visible point (preemption bound 1)",
-		"thorough": "same graphs; thread-mode cross-check with preemption bound 2",
+		"thorough": "same graphs; thread-mode cross-check with preemption bound 2; interference mode additionally on six 4-stage graphs (chain, diamond, fork, join, reversed chain, two independent pairs) with every in-flight set; nested pipelines with three stage-dependency variants",
 	}
 	schedOutside := []string{"more than 3 stages (a 4-stage graph did not finish within 20 minutes per graph in interference mode, nor in thread mode: not registered)", "nesting deeper than one level (the nested Schedule call is the same function; the worker harness checks that its result is propagated)", "cancellation is covered with a stub runner on 5 of the 25 graphs (the real TaskRunner side of cancellation is C12)", "wall-clock overlap: the 50 ms pause is the cut point / a deschedule", "the composition step obligations => property is a hand argument (DESIGN C01-C04); the thread-mode runs are its end-to-end cross-check"}
 	schedAssume := []string{"rely relation iStep/iMayStop for workers (validated against the real goroutine body by VerifSchedWorker)", "checkStageCondition stubbed: a stage's condition has a fixed truth value", "runner.Runner stubbed; tasks terminate", "sync/atomic, WaitGroup, go statements: engine intrinsics; sequential consistency at atomic operations", "map iteration order = insertion (declaration) order; all orders covered by enumerating edge sets over ordered pairs"}
@@ -319,14 +327,17 @@ func init() {
 		var js []*Job
 		for nt := int64(1); nt <= 2; nt++ {
 			for shape := int64(0); shape < 8; shape++ {
-				js = append(js, &Job{Pkg: pkgRunner, Func: "VerifC14Hooks", Args: []int64{nt, shape}, Timeout: 30 * time.Minute, MaxSteps: 200000000})
+				js = append(js, &Job{Pkg: pkgRunner, Func: "VerifC14Hooks", Args: []int64{nt, shape, 0}, Timeout: 30 * time.Minute, MaxSteps: 200000000})
+				if nt == 2 {
+					js = append(js, &Job{Pkg: pkgRunner, Func: "VerifC14Hooks", Args: []int64{nt, shape, 1}, Timeout: 30 * time.Minute, MaxSteps: 200000000})
+				}
 			}
 		}
 		pb := int64(3)
 		if tier == "thorough" {
 			pb = 5
 			for shape := int64(0); shape < 8; shape++ {
-				js = append(js, &Job{Pkg: pkgRunner, Func: "VerifC14Hooks", Args: []int64{3, shape}, Timeout: 60 * time.Minute, MaxSteps: 2000000000})
+				js = append(js, &Job{Pkg: pkgRunner, Func: "VerifC14Hooks", Args: []int64{3, shape, 0}, Timeout: 60 * time.Minute, MaxSteps: 2000000000})
 			}
 		}
 		js = append(js, &Job{Pkg: pkgRunner, Func: "VerifC14Up", Args: []int64{pb}, Timeout: 30 * time.Minute, MaxSteps: 2000000000})
@@ -345,10 +356,10 @@ func init() {
 	register(&PropSpec{ID: "C14", Jobs: c14jobs,
 		Covers: []string{"C14.hooks-checked", "C14.up-failed", "C14.two-tasks-share-a-context", "C14.concurrent-up-checked", "C14.concurrent-up-failed", "C14.cli-checked", "C14.cli-multi-checked", "C14.cli-two-targets-ran"},
 		Bounds: map[string]interface{}{
-			"quick":    "1..2 sequential task runs sharing one context (up, down, before, after commands; a second, unused context), tasks with/without condition, before hook, after hook (8 shapes), symbolic outcome (success / any exit status) for every context and task command, symbolic allow_failure; two simultaneous runs on a fresh context in thread mode (preemption bound 3), up succeeding/failing; CLI: runTask / runPipeline with the target succeeding/failing; two CLI targets (task+task, task+pipeline) sharing a context through the root action, `run` and `run task`, real TaskRunner, symbolic outcomes",
+			"quick":    "1..2 sequential task runs sharing one context, and two tasks on two different contexts (up, down, before, after commands; a second, unused context), tasks with/without condition, before hook, after hook (8 shapes), symbolic outcome (success / any exit status) for every context and task command, symbolic allow_failure; two simultaneous runs on a fresh context in thread mode (preemption bound 3), up succeeding/failing; CLI: runTask / runPipeline with the target succeeding/failing; two CLI targets (task+task, task+pipeline) sharing a context through the root action, `run` and `run task`, real TaskRunner, symbolic outcomes",
 			"thorough": "3 sequential runs; preemption bound 5",
 		},
-		Outside:     []string{"more than 3 tasks / more than one used context", "sync.Once's own implementation (engine intrinsic)", "contexts used through the scheduler (same TaskRunner.Run)"},
+		Outside:     []string{"more than 3 tasks / more than two used contexts", "sync.Once's own implementation (engine intrinsic)", "contexts used through the scheduler (same TaskRunner.Run)"},
 		Assumptions: []string{"stub: (*DefaultExecutor).Execute records the command and returns a symbolic outcome", "CLI harness: TaskRunner.Run/Finish and Scheduler.Schedule replaced by recording stand-ins"},
 		Replay: map[string]*ReplaySpec{
 			"VerifC14CLI":      {PkgDir: "cmd/taskctl", File: "C14_cli_replay_test.go", Test: "TestVerifReplayC14CLI"},
@@ -383,6 +394,8 @@ func init() {
 			{Pkg: pkgRunner, Func: "VerifC11", Args: []int64{0, 0, 1, 2}, Timeout: 20 * time.Minute},
 			{Pkg: pkgRunner, Func: "VerifC11", Args: []int64{2, 1, 0, 1}, Timeout: 20 * time.Minute},
 			{Pkg: pkgRunner, Func: "VerifC11", Args: []int64{1, 2, 0, 2}, Timeout: 20 * time.Minute},
+			{Pkg: pkgConfig, Func: "VerifC11Exec", Args: []int64{2}, Timeout: 20 * time.Minute},
+			{Pkg: pkgConfig, Func: "VerifC11Exec", Args: []int64{3}, Timeout: 20 * time.Minute},
 		}
 		if tier == "thorough" {
 			js = append(js, &Job{Pkg: pkgRunner, Func: "VerifC11", Args: []int64{2, 2, 0, 2}, Timeout: 90 * time.Minute, MaxSteps: 2000000000},
@@ -392,29 +405,30 @@ func init() {
 		return js
 	}
 	register(&PropSpec{ID: "C11", Jobs: c11jobs,
-		Covers: []string{"C11.producer-succeeded", "C11.producer-failed"},
+		Covers: []string{"C11.producer-succeeded", "C11.producer-failed", "C11.exec-checked"},
 		Bounds: map[string]interface{}{
 			"quick":    "producer with 2 commands x {no, 1, 2} variations, every executed command printing 0..2 (0..1 for 2 variations) arbitrary symbolic bytes and succeeding or failing, allow_failure symbolic; producer name of 0..3 symbolic printable-ASCII characters, with and without exportAs; a consumer task run afterwards by the same runner",
 			"thorough": "2 variations with 0..2 bytes per command, 3 variations, names of 4 characters",
 		},
 		Outside:     []string{"byte-exactness of bytes.Buffer and of the interpreter's writes (bytes.Buffer is modelled as string concatenation)", "non-ASCII task names, outputs longer than 2 bytes per command (64 KiB)", "that dependent stages run after the producer (C01)", "the claim is at wiring level: which writer / variable receives which text"},
-		Assumptions: []string{"stub: Execute writes the symbolic bytes to job.Stdout and returns them as the command's output", "regexp [^a-zA-Z0-9_] ReplaceAllString and strings.ToUpper: engine intrinsics (per-byte, ASCII)", "io.MultiWriter: real SSA"},
+		Assumptions: []string{"stub: Execute writes the symbolic bytes to job.Stdout and returns them as the command's output; in VerifC11Exec the REAL DefaultExecutor.Execute / NewDefaultExecutor run (shared buffer, offset, MultiWriter) and only the interpreter is a stub printing symbolic bytes to the configured stdout and stderr", "regexp [^a-zA-Z0-9_] ReplaceAllString and strings.ToUpper: engine intrinsics (per-byte, ASCII)", "io.MultiWriter: real SSA"},
 		Replay:      map[string]*ReplaySpec{"*": {PkgDir: "pkg/runner", File: "C11_replay_test.go", Test: "TestVerifReplayC11"}}})
 
 	c13jobs := func(tier string) []*Job {
 		js := []*Job{
-			{Pkg: pkgConfig, Func: "VerifC13", Args: []int64{1, 0}, Timeout: 30 * time.Minute},
-			{Pkg: pkgConfig, Func: "VerifC13", Args: []int64{0, 0}, Timeout: 30 * time.Minute},
+			{Pkg: pkgConfig, Func: "VerifC13", Args: []int64{1, 0, 0}, Timeout: 30 * time.Minute},
+			{Pkg: pkgConfig, Func: "VerifC13", Args: []int64{0, 0, 0}, Timeout: 30 * time.Minute},
+			{Pkg: pkgConfig, Func: "VerifC13", Args: []int64{1, 0, 1}, Timeout: 30 * time.Minute},
 		}
 		if tier == "thorough" {
-			js = append(js, &Job{Pkg: pkgConfig, Func: "VerifC13", Args: []int64{1, 2}, Timeout: 90 * time.Minute})
+			js = append(js, &Job{Pkg: pkgConfig, Func: "VerifC13", Args: []int64{1, 2, 0}, Timeout: 90 * time.Minute})
 		}
 		return js
 	}
 	register(&PropSpec{ID: "C13", Jobs: c13jobs,
 		Covers: []string{"C13.a-command-overran", "C13.after-hook-overran", "C13.overrun-failed-the-task", "C13.overrun-fails-even-with-allow-failure", "C13.within-deadline-unaffected"},
 		Bounds: map[string]interface{}{
-			"quick":    "task with a before hook, two commands and an after hook; timeout absent, or present with an arbitrary symbolic duration (64-bit); the clock is a symbolic non-decreasing instant; every command has a symbolic duration and either overruns its context's deadline (cut short with the deadline error) or finishes with success / non-zero status; allow_failure symbolic",
+			"quick":    "task with (optionally) a condition, a before hook, two commands and an after hook; timeout absent, or present with an arbitrary symbolic duration (64-bit); the clock is a symbolic non-decreasing instant; every command has a symbolic duration and either overruns its context's deadline (cut short with the deadline error) or finishes with success / non-zero status; allow_failure symbolic",
 			"thorough": "two variations (4 commands)",
 		},
 		Outside:     []string{"that the process is actually killed shortly after the deadline, and that the interpreter reports an overrun as a context error rather than an exit status (a child that exits on SIGINT is reported by mvdan.cc/sh as an ordinary status - read in interp/handler.go, not encodable)", "wall-clock units", "the claim is at wiring level: every job carries the timeout, each Execute derives a fresh deadline of the full duration, and the runner reacts correctly to the deadline error"},
